@@ -64,12 +64,14 @@ uint32_t __CPROVER_uninterpreted_div_u32(uint32_t, uint32_t); uint32_t __CPROVER
 uint64_t __CPROVER_uninterpreted_div_u64(uint64_t, uint64_t); uint64_t __CPROVER_uninterpreted_rem_u64(uint64_t, uint64_t);
 int32_t __CPROVER_uninterpreted_div_i32(int32_t, int32_t); int32_t __CPROVER_uninterpreted_rem_i32(int32_t, int32_t);
 int64_t __CPROVER_uninterpreted_div_i64(int64_t, int64_t); int64_t __CPROVER_uninterpreted_rem_i64(int64_t, int64_t);
-/* the only facts about the uninterpreted divide instruction that proofs may use: |a / b| <= |a| and |a % b| < |b| */
+/* the only facts about the uninterpreted divide instruction that proofs may use: |a / b| <= |a|, |a % b| < |b|, and for the
+ * unsigned 64-bit divider  a < b * 2^32  =>  a / b < 2^32  (in the form (a >> 32) < b, the 64-by-32-bit no-overflow condition) */
 #define AVM_MAG(x) ((x) < 0 ? (uint64_t)0 - (uint64_t)(x) : (uint64_t)(x))
 #define AVM_DIVDEF(T, S, MINV, SG) \
   static inline T AVM_DIV_##S(T a, T b) { __CPROVER_assert(b != 0, "division by zero"); \
     if (SG) __CPROVER_assert(!(a == MINV && b == (T)-1), "signed division overflow (MIN / -1)"); \
-    T q = __CPROVER_uninterpreted_div_##S(a, b); __CPROVER_assume(AVM_MAG(q) <= AVM_MAG(a)); return q; } \
+    T q = __CPROVER_uninterpreted_div_##S(a, b); __CPROVER_assume(AVM_MAG(q) <= AVM_MAG(a)); \
+    if (!(SG) && sizeof(T) == 8) __CPROVER_assume(((uint64_t)a >> 32) >= (uint64_t)b || (uint64_t)q <= 0xffffffffull); return q; } \
   static inline T AVM_REM_##S(T a, T b) { __CPROVER_assert(b != 0, "division by zero"); \
     if (SG) __CPROVER_assert(!(a == MINV && b == (T)-1), "signed division overflow (MIN % -1)"); \
     T r = __CPROVER_uninterpreted_rem_##S(a, b); __CPROVER_assume(AVM_MAG(r) < AVM_MAG(b)); return r; }
